@@ -229,16 +229,30 @@ def run(ck):
             iso = pg.PointIsotherm(pressure=ps, loading=load, material="pgv-synth", adsorbate="N2", temperature=77.355, pressure_mode="relative", pressure_unit=None,
                                    loading_basis="molar", loading_unit="mmol", material_basis="mass", material_unit="g", temperature_unit="K")
             lim = None if rng.random() < 0.4 else (rng.choice([None, 0, logu(rng, 1e-7, 1e-3)]), rng.choice([None, rng.uniform(0.01, 0.6), rng.choice(ps)]))
-            model, geo = rng.choice(["HK", "HK-CY", "RY"]), rng.choice(["slit", "cylinder", "sphere"])
+            model, geo = rng.choice(["HK", "HK-CY", "RY", "RY-CY"]), rng.choice(["slit", "cylinder", "sphere"])
+            ads_model = adsorbate_set()
             lo, hi = (None, 0.2) if lim is None else lim
             strict = [j for j, p in enumerate(ps) if (not lo or p > lo) and (not hi or p < hi)]
             loose = [j for j, p in enumerate(ps) if (not lo or p >= lo) and (not hi or p <= hi)]
             ck.count(("entry", model, geo, str(lim), i), bucket="entry point:psd_microporous")
             rec.clear()
             try:
-                res = pgc.psd_microporous(iso, psd_model=model, pore_geometry=geo, branch="ads", material_model="Carbon(HK)", p_limits=lim)
+                res = pgc.psd_microporous(iso, psd_model=model, pore_geometry=geo, branch="ads", material_model="Carbon(HK)", adsorbate_model=ads_model, p_limits=lim)
                 a, b = int(res["limits"][0]), int(res["limits"][1])
                 used = list(range(a, b + 1))
+                entry_rec = rec[0] if rec else None
+                # the entry point must hand the selected points to the potential family and correction its model name stands for
+                raw_fn = pm.psd_horvath_kawazoe if model.startswith("HK") else pm.psd_horvath_kawazoe_ry
+                raw = raw_fn(np.array(ps)[a:b + 1], np.array(load)[a:b + 1], 77.355, geo, ads_model, dict(_ADSORBENT_MODELS["Carbon(HK)"]), use_cy=model.endswith("CY"))
+                same = all(len(x) == len(y) and np.allclose(np.asarray(x, dtype=float), np.asarray(y, dtype=float), rtol=1e-9, atol=0, equal_nan=True)
+                           for x, y in zip(raw, (res["pore_widths"], res["pore_distribution"], res["pore_volume_cumulative"])))
+                if not same or (entry_rec is not None and entry_rec["cy"] != model.endswith("CY")):
+                    ck.fail_case({"model": model, "geometry": geo, "clause": "entry point does not solve the equation of the requested model"},
+                                 {"pressure": ps, "limits": lim, "cheng_yang_applied": None if entry_rec is None else entry_rec["cy"],
+                                  "entry_widths": [float(x) for x in res["pore_widths"][:5]], "model_widths": [float(x) for x in raw[0][:5]]})
+                lines.append(f"hkdispatch {model}")
+                plan.append(("dispatch", (model.startswith("RY"), None if entry_rec is None else entry_rec["cy"])))
+                rec[:] = [entry_rec] if entry_rec else []
                 if len(loose) < 3 or not (set(strict) <= set(used) <= set(loose)):
                     ck.fail_case({"model": model, "geometry": geo, "clause": "points used are not the points inside the pressure limits"}, {"pressure": ps, "limits": lim, "used": [a, b]})
                 elif rec and not np.allclose(rec[0]["p"], np.array(ps)[a:b + 1], rtol=1e-12):
@@ -266,6 +280,8 @@ def run(ck):
             ck.count(("corr", what), nontrivial=False, bucket="correspondence:" + what)
             if what == "win":
                 ok = (t[0] == "refused" and data[0] == "refused") or (t[0] == "ok" and data[0] == "ok" and (int(t[1]), int(t[2])) == data[1:])
+            elif what == "dispatch":
+                ok = t[0] == "ok" and t[1] == str(data[0]).lower() and (data[1] is None or t[2] == str(data[1]).lower())
             elif what == "hkwidth":
                 ok = t[0] == "ok" and abs(float(parse_qlist("[" + t[1] + "]")[0]) - data) <= 1e-12
             else:
